@@ -200,6 +200,22 @@ def enumerate_cases(tier, seed):
                         cases.append({"mode": ymode, "entry": "yaml", "omode": "product", "pipe": "p2", "steps": 2,
                                       "site": site, "exc": exc})
                     first = False
+    # the legacy entry points pyxel.exposure_mode / pyxel.observation_mode (deprecated, still public, own implementations)
+    for lmode, omodes in (("exposure", (None,)), ("obs_seq", ("product", "sequential", "custom"))):
+        for omode in omodes:
+            first = True
+            for run in ([{"a": 0, "b": 0}] if lmode == "exposure" else _runs(omode)):
+                for step in range(2):
+                    for g, model in PIPES["p2"]:
+                        for exc in (EXC if (thorough or first) else ["ValueError"]):
+                            site = {"name": model, "step": step}
+                            if lmode == "obs_seq":
+                                site.update(a=run["a"], b=run["b"])
+                            c = {"mode": lmode, "entry": "legacy", "pipe": "p2", "steps": 2, "site": site, "exc": exc}
+                            if omode:
+                                c["omode"] = omode
+                            cases.append(c)
+                        first = False
     # parallel observation
     for sched in ("synchronous", "threads", "controlled"):
         first = True
@@ -343,6 +359,16 @@ def run_case(case):
         try:
             if case.get("entry") == "yaml":
                 result = pyxel.run(_write_yaml(case, tmp))
+            elif case.get("entry") == "legacy":
+                import warnings
+
+                with warnings.catch_warnings():
+                    warnings.simplefilter("ignore")
+                    if mode == "exposure":
+                        result = pyxel.exposure_mode(mk.exposure([float(i + 1) for i in range(case["steps"])]), det, pipe)
+                    else:
+                        obs = build_observation(case["omode"], case["pipe"], case["steps"], False, tmp)
+                        result = pyxel.observation_mode(obs, det, pipe)
             elif mode == "exposure":
                 result = pyxel.run_mode(mk.exposure([float(i + 1) for i in range(case["steps"])]), det, pipe,
                                         with_inherited_coords=True, debug=bool(case.get("debug")))
